@@ -122,6 +122,28 @@ class LangEval:
                 return lang
         return None
 
+    def const_pattern(self, node, compiled):
+        """the pattern text behind a module-level name (NAME = "..." or
+        NAME = re.compile("...") without flags); None when not that shape"""
+        if not isinstance(node, ast.Name):
+            return None
+        vals = [st.value for st in self.func.module.tree.body
+                if isinstance(st, ast.Assign) and len(st.targets) == 1 and
+                isinstance(st.targets[0], ast.Name) and
+                st.targets[0].id == node.id]
+        if len(vals) != 1:
+            return None
+        v = vals[0]
+        if compiled:
+            if isinstance(v, ast.Call) and dotted(v.func) == "re.compile" \
+                    and len(v.args) == 1 and not v.keywords:
+                v = v.args[0]
+            else:
+                return None
+        if isinstance(v, ast.Constant) and isinstance(v.value, str):
+            return v.value
+        return None
+
     def test(self, node):
         """language of strings for which the test is true"""
         if isinstance(node, ast.UnaryOp) and isinstance(node.op, ast.Not):
@@ -142,6 +164,21 @@ class LangEval:
                 mode = d.split(".")[1]
                 self.regexes.append((node.args[0].value, mode))
                 return rx.from_regex(node.args[0].value, mode)
+            # pattern given by a module constant, or a precompiled pattern
+            # object: NAME = re.compile("...") ; NAME.match(string)
+            pat = mode = None
+            if d in ("re.match", "re.search", "re.fullmatch") and \
+                    len(node.args) == 2 and self.is_param(node.args[1]):
+                pat = self.const_pattern(node.args[0], compiled=False)
+                mode = d.split(".")[1]
+            elif isinstance(node.func, ast.Attribute) and \
+                    node.func.attr in ("match", "search", "fullmatch") and \
+                    len(node.args) == 1 and self.is_param(node.args[0]):
+                pat = self.const_pattern(node.func.value, compiled=True)
+                mode = node.func.attr
+            if pat is not None:
+                self.regexes.append((pat, mode))
+                return rx.from_regex(pat, mode)
         if isinstance(node, ast.Compare) and len(node.ops) == 1:
             left, op, right = node.left, node.ops[0], node.comparators[0]
             if self.is_param(left) and isinstance(right, ast.Constant) and \
@@ -265,6 +302,7 @@ def return_types(repo, func, _seen=None):
 class GateHooks(Hooks):
     """Everything past the isinstance gate is accepted: method calls on the
     abstract value return an opaque value, re.* on non-strings is skipped."""
+    regex_on_abstract = True
 
     def method(self, ev, base, name, args, kwargs, node):
         if isinstance(base, Abs):
